@@ -10,6 +10,9 @@ int __wrap_poll(struct pollfd *fds, nfds_t n, int timeout) {
   return M.poll_hook ? M.poll_hook(fds, n, timeout) : (errno = ENOSYS, -1);
 }
 int __wrap_mount(const char *src, const char *tgt, const char *type, unsigned long flags, const void *data) {
+  M.mount_type = type;
+  M.mount_flags = flags;
+  M.mount_data = data;
   return M.mount_hook ? M.mount_hook(src, tgt) : (errno = ENOSYS, -1);
 }
 int __wrap_fanotify_init(unsigned flags, unsigned event_flags) {
